@@ -11,6 +11,8 @@ mod xq;
 mod c01;
 mod c02;
 mod c03;
+mod c04;
+mod c05;
 
 fn main() {
     let args: Vec<String> = std::env::args().collect();
@@ -30,6 +32,8 @@ fn main() {
     match prop {
         "C01" => { c01::cases(&mut ctx); c01::preds(&mut ctx); }
         "C02" => { c02::cases(&mut ctx); c02::preds(&mut ctx); }
+        "C04" => { c04::cases(&mut ctx); c04::preds(&mut ctx); }
+        "C05" => { c05::cases(&mut ctx); c05::preds(&mut ctx); }
         "C03" => { c03::cases(&mut ctx); c03::preds(&mut ctx); }
         _ => { eprintln!("unknown property {}", prop); std::process::exit(2); }
     }
